@@ -124,16 +124,23 @@ structure Elab where
 def relTasks (p : RawProj) : List RawTask :=
   p.tasks.map (fun t => { t with start := t.start.map (· - p.start), stop := t.stop.map (· - p.start) })
 
-/-- per-resource calendars: zone, hours (shift hours win over own hours) and leaves, each inherited -/
+/-- the calendar a resource declares itself: the hours of the shift it refers to, else its own working hours -/
+def ownCal (sh : Option Hours × Option Hours) : Option Hours :=
+  match sh.1 with
+  | some h => some h
+  | none => sh.2
+
+/-- per-resource calendars: zone, hours and leaves, each inherited; the hours are those of the NEAREST declaration — the
+    resource's own (a shift reference before inline hours), else those of the closest enclosing group that declares any
+    (`ResourceScenario.onShift` after the repair of finding F55; before it an inherited shift beat a resource's own hours) -/
 def resCalsCore (par : List (Option Nat)) (zones : List (Option (List (Int × Int)))) (hours shifts : List (Option Hours))
     (leaves : List (Option Intervals)) (n : Nat) : Array ResCal :=
   let zone := inheritOpt par zones
-  let hrs := inheritOpt par hours
-  let shift := inheritOpt par shifts
+  let hrs := inheritOpt par ((shifts.zip hours).map ownCal)
   let lvs := inheritOpt par leaves
   (List.range n).toArray.map (fun i =>
     { zone := zone.getD i none,
-      hours := (match shift.getD i none with | some h => some h | none => hrs.getD i none),
+      hours := hrs.getD i none,
       leaves := (lvs.getD i none).getD [] })
 
 def resCals (rs : List RawRes) : Array ResCal :=
